@@ -983,6 +983,13 @@ func builtinHasKey(env *lisp.LEnv, args *lisp.LVal) *lisp.LVal {
 		if !ok {
 			return lisp.ErrorConditionf(FailedConstraint, "Map does not have key %s", key)
 		}
+		// No allowed types given: the constraint only requires the key to be
+		// present, as the README documents ("optionally requiring the value
+		// therein to be of type").  Without this the loop below matched nothing
+		// and the constraint could never pass.
+		if len(compares) == 0 {
+			return lisp.String(key)
+		}
 		for _, compare := range compares {
 			if applyConstraint(env, compare, val).IsNil() {
 				matched = true
@@ -1031,6 +1038,11 @@ func builtinMayHaveKey(env *lisp.LEnv, args *lisp.LVal) *lisp.LVal {
 				return lisp.ErrorConditionf(WrongType,
 					"Map cannot be searched for key %s: %v", key, val)
 			}
+			return lisp.String(key)
+		}
+		// No allowed types given: a present key of any type is accepted (the
+		// README suggests exactly this use together with s:no-other-keys).
+		if len(compares) == 0 {
 			return lisp.String(key)
 		}
 		for _, compare := range compares {
